@@ -68,7 +68,7 @@ func Run(ctx *core.Ctx) {
 	// phase B: replay in this process and in fresh processes
 	plan := Plan{
 		Reps:       func(c *MsgCase) int { return repsFor(ctx, c) },
-		EmbedReps:  ctx.Pick(4, 10),
+		EmbedReps:  ctx.Pick(4, 13),
 		Meanings:   true,
 		Seed:       ctx.Seed,
 		ChunkSize:  40,
@@ -121,7 +121,7 @@ func repsFor(ctx *core.Ctx, c *MsgCase) int {
 
 // ---- M1 ---------------------------------------------------------------------
 
-const m1Invariants = "NamesAreFunction NameProps IdIgnoresDesc IdCountsMeaning KeyFollowsPhString PluralInKey WellFormedFamily"
+const m1Invariants = "NamesAreFunction NameProps IdIgnoresDesc IdCountsMeaning KeyFollowsPhString PluralInKey ContextFree WellFormedFamily"
 
 func m1Cfg(maxParts, maxInner int, dev, only, invs string) string {
 	return fmt.Sprintf("SPECIFICATION Spec\nCONSTANTS\n  MaxParts = %d\n  MaxInner = %d\n  Dev = {%s}\n  OnlyCase = %q\nINVARIANTS %s\nCHECK_DEADLOCK FALSE\n",
@@ -154,10 +154,11 @@ func runDeviations(ctx *core.Ctx) {
 		{"phnames_in_map_order", "NamesAreFunction"},
 		{"id_includes_desc", "IdIgnoresDesc"},
 		{"id_drops_meaning", "IdCountsMeaning"},
+		{"skips_call_params", "ContextFree"},
 	}
 	selftest := map[string]interface{}{}
 	for _, d := range devs {
-		res, err := ctx.RunTLC(core.TLCOpts{Module: "SoyMsgCheck", Cfg: m1Cfg(3, 1, `"`+d.name+`"`, "", "NamesAreFunction NameProps IdIgnoresDesc IdCountsMeaning PluralInKey"),
+		res, err := ctx.RunTLC(core.TLCOpts{Module: "SoyMsgCheck", Cfg: m1Cfg(3, 1, `"`+d.name+`"`, "", "NamesAreFunction NameProps IdIgnoresDesc IdCountsMeaning PluralInKey ContextFree"),
 			Workers: 1, Timeout: 10 * time.Minute, Label: "M1-deviation-" + d.name})
 		if err != nil {
 			ctx.ToolError("deviation %s: %v", d.name, err)
